@@ -100,7 +100,7 @@ func (ssf *serverStreamFormat) writePacketRTP(pkt *rtp.Packet, ntp time.Time) er
 
 	maxPlainPacketSize := ssf.ssm.st.Server.MaxPacketSize
 	if ssf.ssm.srtpOutCtx != nil {
-		maxPlainPacketSize -= srtpOverhead
+		maxPlainPacketSize -= srtpOverhead + len(ssf.ssm.srtpOutCtx.mki)
 	}
 
 	plain := make([]byte, maxPlainPacketSize)
